@@ -78,8 +78,8 @@ class Index:
         for d in docs:
             if d.get('kind') == 'NamespaceDecl':
                 self._walk(d, '', None)
-            elif d.get('kind') in ('FunctionDecl',) and d.get('name'):
-                self._walk(d, '', None)       # a file-local function delivered by an extra ast filter
+            elif d.get('kind') in ('FunctionDecl', 'FunctionTemplateDecl', 'EnumDecl') and d.get('name'):
+                self._walk(d, '', None)       # a file-local function / template / enum delivered by an extra ast filter
         # second pass: out-of-line definitions
         for d in docs:
             if d.get('kind') == 'NamespaceDecl':
@@ -1002,10 +1002,35 @@ class FnEmitter:
         for c in kids(n):
             if c.get('kind') == 'CXXDefaultInitExpr':
                 break
+            cs = self.strip(c)
+            if cs.get('kind') == 'InitListExpr' and self.ty.kind(self.ct(cs)) == 'value' and self.ct(cs) != ct and \
+                    not parts and self.is_base_of(self.ct(cs), ct):
+                # aggregate with a base class: the base's fields come first in the flattened C struct
+                for bc in kids(cs):
+                    if bc.get('kind') == 'CXXDefaultInitExpr':
+                        break
+                    parts.append(self.expr(bc))
+                continue
             parts.append(self.expr(c))
         if not parts:
             return '%s__ctor0()' % ct
         return '%s__init%d(%s)' % (ct, len(parts), ', '.join(parts))
+
+    def is_base_of(self, base_ct, derived_ct):
+        for q, rec in self.idx.records.items():
+            try:
+                if self.ty.oomd_type(q) != derived_ct:
+                    continue
+            except Unsupported:
+                continue
+            for b in rec.get('bases', []):
+                bq = strip_cvref(b['type'].get('desugaredQualType') or b['type']['qualType'])
+                try:
+                    if self.ty.oomd_type(bq) == base_ct:
+                        return True
+                except Unsupported:
+                    pass
+        return False
 
     def e_ImplicitValueInitExpr(self, n):
         ct = self.ct(n)
@@ -2269,6 +2294,20 @@ class Unit:
             want = {f['qname'] for f in self.cfg['functions'] if '::' not in f['qname']}
             docs = [d for d in docs if (d.get('kind') == 'NamespaceDecl' and d.get('name') == 'Oomd') or
                     (d.get('kind') == 'FunctionDecl' and d.get('name') in want)]
+        # extra_ast_filters: further dumps of the same TU for file-local declarations (anonymous namespace) that no single
+        # filter string covers together with namespace Oomd.  Node ids of different clang runs do not agree, so only
+        # declarations that are looked up BY NAME cross the dumps (functions called, enum and struct types).
+        for xf in self.cfg.get('extra_ast_filters', []):
+            d2 = os.path.join(self.workdir, sanitize(tu) + '.' + sanitize(xf) + '.ast.json')
+            clang_dump(self.repo, tu, d2, filt=xf)
+            more = load_docs(d2)
+            os.remove(d2)
+            have = {(d.get('kind'), d.get('name'), (d.get('loc') or {}).get('offset')) for d in docs}
+            want = {f['qname'].split('::')[-1] for f in self.cfg['functions']} | set(self.cfg.get('extra_ast_names', []))
+            for d in more:
+                if d.get('kind') in ('FunctionDecl', 'FunctionTemplateDecl', 'EnumDecl') and d.get('name') in want and \
+                        (d.get('kind'), d.get('name'), (d.get('loc') or {}).get('offset')) not in have:
+                    docs.append(d)
         self.index = Index(docs)
         self.types = Types(self.cfg, self.index)
         for fn in self.cfg['functions']:
